@@ -548,7 +548,14 @@ class BlockUploadStream(io.RawIOBase):
             if seqno == self._ackseq + 1:
                 self._ackseq = seqno
             else:
-                # Wrong sequence number
+                # Wrong sequence number. The server goes on sending the rest of
+                # the sub-block, let it finish before asking for retransmission
+                # so that old and retransmitted segments cannot be mixed up
+                try:
+                    while True:
+                        self.sdo_client.read_response()
+                except SdoCommunicationError:
+                    pass
                 response = self._retransmit()
         res_command, = struct.unpack_from("B", response)
         if self._ackseq >= self.blksize or res_command & NO_MORE_BLOCKS:
